@@ -11,7 +11,7 @@ import ast
 import os
 from .common import *
 
-MODULES = ['manip.py', 'sort.py', 'convert.py', 'validator.py', 'references.py', 'api.py', 'curate/compare.py', 'curate/diff.py',
+MODULES = ['manip.py', 'sort.py', 'convert.py', 'validator.py', 'references.py', 'api.py', 'curate/compare.py', 'curate/diff.py', 'curate/compare_report.py',
            'refconverters/convert.py', 'writers/write.py']
 MUTATORS = {'append', 'extend', 'pop', 'insert', 'sort', 'update', 'remove', 'clear', 'setdefault', 'reverse', 'popitem'}
 
